@@ -1115,3 +1115,91 @@ func init() {
 			return out
 		}})
 }
+
+// ---- RECPROGRESS
+//
+// A function that recurses on the rest of a slice (`F(r, c[k:])`) terminates only if k > 0 on every path to the
+// recursive call. The codec helpers fill a slice from a buffered reader in chunks and recurse on what is left; when
+// fewer bytes than one element are available the chunk is empty, and without a test of k the call recurses on the
+// same slice forever (a truncated input then kills the process with a stack overflow instead of returning an error).
+func scanRecProgress(c *core.Ctx) []ob {
+	var out []ob
+	n := 0
+	c.FuncDecls(func(pk *packages.Package, file *ast.File, fd *ast.FuncDecl) {
+		if fd.Body == nil || fileIsTestSupport(c.Program, fd.Pos()) || inExamples(pk) {
+			return
+		}
+		info := pk.TypesInfo
+		self, _ := info.Defs[fd.Name].(*types.Func)
+		if self == nil {
+			return
+		}
+		fkey := core.FuncKey(pk, fd)
+		ast.Inspect(fd.Body, func(x ast.Node) bool {
+			call, ok := x.(*ast.CallExpr)
+			if !ok {
+				return true
+			}
+			if f := calleeFunc(info, call); f == nil || funcOrigin(f) != funcOrigin(self) {
+				return true
+			}
+			for _, a := range call.Args {
+				se, ok := unparen(a).(*ast.SliceExpr)
+				if !ok || se.Low == nil || se.High != nil {
+					continue
+				}
+				kid, ok := unparen(se.Low).(*ast.Ident)
+				if !ok {
+					continue
+				}
+				kobj := info.Uses[kid]
+				n++
+				key := fmt.Sprintf("RECPROGRESS:%s#%s", fkey, exprString(a))
+				// a test of k against 0 somewhere before the call (k == 0, k > 0, k < 1, k != 0)
+				tested := false
+				ast.Inspect(fd.Body, func(y ast.Node) bool {
+					is, ok := y.(*ast.IfStmt)
+					if !ok || is.Pos() >= call.Pos() {
+						return true
+					}
+					ast.Inspect(is.Cond, func(z ast.Node) bool {
+						be, ok := z.(*ast.BinaryExpr)
+						if !ok {
+							return true
+						}
+						for _, pr := range [][2]ast.Expr{{be.X, be.Y}, {be.Y, be.X}} {
+							id, ok := unparen(pr[0]).(*ast.Ident)
+							if !ok || info.Uses[id] != kobj {
+								continue
+							}
+							if lit, ok := unparen(pr[1]).(*ast.BasicLit); ok && (lit.Value == "0" || lit.Value == "1") {
+								tested = true
+							}
+						}
+						return true
+					})
+					return true
+				})
+				if tested {
+					out = append(out, okOb("RECPROGRESS", key, c.Rel(call.Pos()), "the chunk size is tested against zero before recursing", true))
+				} else {
+					out = append(out, violOb("RECPROGRESS", key, c.Rel(call.Pos()), fmt.Sprintf("%s recurses on %s without ever testing %s against zero: when no element could be consumed the call recurses on the same slice forever (stack overflow on a truncated input)", fkey, exprString(a), kid.Name)))
+				}
+			}
+			return true
+		})
+	})
+	c.Stats["recprogress_sites"] = n
+	return out
+}
+
+func init() {
+	core.Register(&core.Rule{Name: "RECPROGRESS", Props: []string{"C08"},
+		Doc: "a function that recurses on the rest of a slice (F(.., c[k:])) tests k against zero before the recursive call, so that the recursion makes progress",
+		Run: func(c *core.Ctx) []ob {
+			out := scanRecProgress(c)
+			out = append(out, core.Floor("RECPROGRESS", nil, "self-recursive calls on a slice tail", c.Stats["recprogress_sites"], 3)...)
+			out = append(out, control(c, "RECPROGRESS", scanRecProgress, "fillAll")...)
+			return out
+		}})
+}
